@@ -5,6 +5,21 @@ import "time"
 var _ = time.Second
 
 func init() {
+	reg("C17", propCfg{
+		index: 17,
+		rule: "cases are configurations from the full generator (accepted ones) and the same with one injected defect (rejected ones); every case is run in normal and in --stub mode and the two are compared pairwise: same accept/reject decision with the same diagnostic facts; the stub starts with the //go:build gontainerstub and // +build gontainerstub lines; identical package clause and identical set of declared types, functions and methods with identical signatures (go/parser, private runtime helpers excluded); both are compiled (stub with -tags gontainerstub) and reflected in a probe: equal type name and exported method sets with identical fully-qualified signatures; the stub additionally compiles against a variant of the fixture module whose user packages declare types only; calling the stub constructor and every stub getter / must-getter panics with \"stub\". Non-trivial = a configuration with at least one getter that has a declared type; distinct by hash of (configuration, style)",
+		assume: []string{"rejected configurations are compared on verdict and diagnostics only"},
+	})
+	reg("C15", propCfg{
+		index: 15,
+		rule: "(1) build time: configurations whose only definitions are todo parameters / todo services (with dependants, and with otherwise invalid attributes on a todo service) must be accepted. (2) exhaustive: every history of length <= 3 (quick) / <= 4 (thorough) over {GetParam, Get, GetTaggedBy, OverrideParam(int|string), OverrideService(marker)} on two small configurations (todo parameter with and without message, dependent parameters, counted parameter functions, todo service with shared / default / non_shared dependants, a decorator), each history on a fresh container, followed by the invocation counters. (3) random: behavioural configurations with 0..3 definitions turned into todo placeholders and a rapid-drawn history of 2..8 operations with counters before, between and after. Oracle: DI interpreter with the runtime's documented caching (todo always errors with the given message / 'parameter todo' / 'service todo'; after an override every dependant not yet cached receives the overriding value, cached shared services and parameters keep theirs, errors are never cached) and invocation counters (zero after construction, only what was needed afterwards). Non-trivial = a history containing an override followed by a read; distinct by hash",
+		assume: []string{"override values are int, string, bool, float literals; override services are marker objects with default scope and no tags"},
+	})
+	reg("C14", propCfg{
+		index: 14,
+		rule: "cases are accepted configurations from an alias-heavy behavioural generator: 3..5 fixture packages with confusable paths (fx/lib, fx/libx, fx/lib/sub, fx/a/lib, fx/b/lib, fx/my-lib.v2, fx/os, fx/fmt, fx/errors, fx/context, fx/reflect, fx/strconv), 2..6 aliases drawn from pools of names that are string prefixes of other aliases, of referenced paths' first segments and of the packages the template imports, aliases of path prefixes, and references in constructor, value, type, !value, decorator and function positions in all five spellings (bare alias, alias + sub-path, unquoted full path, quoted full path, \".\"). Every fixture package exports identical self-identifying symbols, so the probe reads which package arrived: object package IDs and getter signature types must equal what the alias rule (whole first segment) denotes; the import block (go/parser) has no path twice, no shared local name, imports no fixture package that no reference denotes, and every package an object came from. Non-trivial = the alias table contains an alias that is a proper string prefix of another alias, of a referenced path's first segment or of a template import; distinct by hash",
+		assume: []string{"aliases named exactly like a package the template imports are excluded by construction here (open known finding of C01, probed there)"},
+	})
 	reg("C13", propCfg{
 		index: 13,
 		rule: "(1) rejections, enumerated completely: every method name and the embedded field name of the runtime container as getter, Must-prefix and InContext-suffix variants, the 18-row truth table must_getter x default_must_getter x getter present, equal getters on two services (also with a todo service). (2) accepted configurations from the behavioural generator over getter x type form (none, pointer, struct, interface, named int/slice/func, every import spelling, own package) x must_getter x default_must_getter x meta names: the probe reflects the method set of the generated pointer type, which must equal promoted(*container.Container) + {G, GInContext, and MustG/MustGInContext exactly when the rule says} with exact fully-qualified signatures and the configured type name; G() and GInContext() must return what Get(name) returns (same instance by the scope rules), errors for failing/todo-dependent services, MustG panics on them. (3) the documented defaults main / Gontainer / NewGontainer, linked as their own binary. Non-trivial = a getter with an explicit or default must setting or a non-pointer type, and every rejection case; distinct by hash",
